@@ -129,6 +129,52 @@ Theorem C17_flatten : forall s, ~ In 10 (flatten s) /\ length (flatten s) = leng
 Proof. exact flatten_spec. Qed.
 Print Assumptions C17_flatten.
 
+(** The property's own wording, in the model: for any script prefix that leaves the lexer inside
+    the literal and any suffix, the token skeleton and final state do not depend on the text. *)
+Theorem C17_same_skeleton_fish : forall s1 s2 pre post, final fish_step FB pre = FSQ ->
+  skeleton (events fish_step FB (pre ++ fish_escape_help s1 ++ post)) =
+  skeleton (events fish_step FB (pre ++ fish_escape_help s2 ++ post)) /\
+  final fish_step FB (pre ++ fish_escape_help s1 ++ post) = final fish_step FB (pre ++ fish_escape_help s2 ++ post).
+Proof. exact same_skeleton_fish. Qed.
+Print Assumptions C17_same_skeleton_fish.
+
+Theorem C17_same_skeleton_fish_list : forall s1 s2 pre post, final fish_step FB pre = FDQ ->
+  skeleton (events fish_step FB (pre ++ fish_possible_value_help s1 ++ post)) =
+  skeleton (events fish_step FB (pre ++ fish_possible_value_help s2 ++ post)) /\
+  final fish_step FB (pre ++ fish_possible_value_help s1 ++ post) =
+  final fish_step FB (pre ++ fish_possible_value_help s2 ++ post).
+Proof. exact same_skeleton_fish_list. Qed.
+Print Assumptions C17_same_skeleton_fish_list.
+
+Theorem C17_same_skeleton_zsh : forall s1 s2 pre post, final sh_step ZB pre = ZSQ ->
+  skeleton (events sh_step ZB (pre ++ zsh_escape_help s1 ++ post)) =
+  skeleton (events sh_step ZB (pre ++ zsh_escape_help s2 ++ post)) /\
+  final sh_step ZB (pre ++ zsh_escape_help s1 ++ post) = final sh_step ZB (pre ++ zsh_escape_help s2 ++ post).
+Proof. exact same_skeleton_zsh. Qed.
+Print Assumptions C17_same_skeleton_zsh.
+
+Theorem C17_same_skeleton_powershell : forall s1 s2 pre post, final ps_step PB pre = PSQ ->
+  skeleton (events ps_step PB (pre ++ powershell_escape_help s1 ++ post)) =
+  skeleton (events ps_step PB (pre ++ powershell_escape_help s2 ++ post)) /\
+  final ps_step PB (pre ++ powershell_escape_help s1 ++ post) =
+  final ps_step PB (pre ++ powershell_escape_help s2 ++ post).
+Proof. exact same_skeleton_powershell. Qed.
+Print Assumptions C17_same_skeleton_powershell.
+
+Theorem C17_same_skeleton_elvish : forall s1 s2 pre post, final el_step EB pre = ESQ ->
+  skeleton (events el_step EB (pre ++ elvish_escape_help s1 ++ post)) =
+  skeleton (events el_step EB (pre ++ elvish_escape_help s2 ++ post)) /\
+  final el_step EB (pre ++ elvish_escape_help s1 ++ post) = final el_step EB (pre ++ elvish_escape_help s2 ++ post).
+Proof. exact same_skeleton_elvish. Qed.
+Print Assumptions C17_same_skeleton_elvish.
+
+Theorem C17_same_skeleton_nushell : forall s1 s2 pre post, final nu_step NB pre = NC ->
+  skeleton (events nu_step NB (pre ++ nushell_single_line s1 ++ post)) =
+  skeleton (events nu_step NB (pre ++ nushell_single_line s2 ++ post)) /\
+  final nu_step NB (pre ++ nushell_single_line s1 ++ post) = final nu_step NB (pre ++ nushell_single_line s2 ++ post).
+Proof. exact same_skeleton_nushell. Qed.
+Print Assumptions C17_same_skeleton_nushell.
+
 (** bash: none of the accessors bash.rs (or generator/utils.rs) calls returns descriptive text. *)
 Theorem C17_bash_no_text : bash_uses_text = false.
 Proof. exact bash_no_text. Qed.
